@@ -4,7 +4,9 @@ go 1.15
 
 require (
 	github.com/apex/log v1.9.0
+	github.com/c2h5oh/datasize v0.0.0-20200825124411-48ed595a09d2
 	github.com/richiefi/rrrouter v0.0.0
+	gopkg.in/yaml.v2 v2.3.0
 )
 
 replace github.com/richiefi/rrrouter => /repo
